@@ -8,5 +8,7 @@ for id in $(python3 -c "import json;print(' '.join(c['property_id'] for c in jso
   echo "$id exit=$code $(echo "$out" | tail -1)"
   echo "$out" | grep -E '^(VIOLATION|KNOWN-FINDING|INCONCLUSIVE)' | cut -c1-300 | head -5
   [ $code -ne 0 ] && rc=1
+  # evidence/<id>.json holds the last run of either tier; keep a copy of the thorough one beside it
+  [ "$tier" = thorough ] && mkdir -p evidence-thorough && cp evidence/$id.json evidence-thorough/$id.json
 done
 exit $rc
